@@ -44,21 +44,12 @@ func H08d() {
 		vCover("crash")
 		kv.crashAt = at
 	}
-	crashed := false
 	var err error
-	func() {
-		defer func() {
-			if r := recover(); r != nil {
-				if _, ok := r.(hKVCrash); !ok {
-					panic(r)
-				}
-				crashed = true
-				kv.mu.TryLock() // the stopped process held the store lock; release it for the restart
-				kv.mu.Unlock()
-			}
-		}()
-		err = s.Add(ctx, next, nil)
-	}()
+	crashed := vRunUntilStop(func() { err = s.Add(ctx, next, nil) })
+	if crashed {
+		kv.mu.TryLock() // the stopped process held the store lock; release it for the restart
+		kv.mu.Unlock()
+	}
 	kv.failAt, kv.crashAt = 0, 0
 	present, _ := s.IsPresent(ctx, next.ref)
 	if crashed {
